@@ -28,6 +28,8 @@ const EVENTS: &[&str] = &[
     "L SET k a", "L SET k b", "L APPEND k x", "L DEL k", "L HSET h f v", "L INCR n",
     "R 2 small", "R 2 equal", "R 2 far", "R 3 equal", "R 3 far", "R 2 far-del", "R 2 far-hash",
     "L HSET h f v g w i x", "L HDEL h g",
+    // a local command that empties the keyspace: what the node has observed stays observed
+    "L FLUSHALL",
 ];
 const POST: &[&str] = &["SET k new", "APPEND k z", "HSET h f new", "INCR n", "DEL k", "HSET h i new", "DEL h",
     // every other command of the replicated set
